@@ -95,9 +95,9 @@ def check_graph(ctx, f, rep):
                     for c in p.events[hs[-1]:i]:
                         if c['kind'] != 'cond':
                             continue
-                        es = q.eq_sides(c['expr'])
-                        if es and q.is_self_field_load(es[1], 'connection_state') and q.is_variant(es[2], 'ConnectionState', 'Undead'):
-                            gated = (q.cond_truth(c) != es[0])
+                        t_und = q.conn_state_test(f, c, 'Undead')
+                        if t_und is not None:
+                            gated = (t_und is False)
                 rep.check(not cfg.in_cycle(e['block']), 'C18-R3', hd.nname, 'reply is not inside a loop', site=e['span'],
                           construct='reply-in-loop:%s' % sent)
                 for k in ks:
